@@ -252,20 +252,46 @@ func execC19RT(t *testing.T, c C19RT) (v Verdict) {
 			}
 			errc <- nil
 		}()
-		for range want {
-			x, err := sv.Read(ctx)
-			if err != nil {
-				if ctx.Err() != nil {
-					inconclusive(t, "websocket round trip exceeded %v", netBudget)
+		// reader in the background; once every Write has returned without error, whatever was written is in the
+		// socket and must be readable within a generous grace period
+		var rmu sync.Mutex
+		rdone := make(chan error, 1)
+		go func() {
+			for range want {
+				x, err := sv.Read(ctx)
+				if err != nil {
+					rdone <- err
+					return
 				}
-				v.failf("websocket read of a well-formed envelope failed: %v", err)
-				break
+				rmu.Lock()
+				got = append(got, x)
+				rmu.Unlock()
 			}
-			got = append(got, x)
+			rdone <- nil
+		}()
+		werr := <-errc
+		if werr != nil {
+			if ctx.Err() != nil {
+				inconclusive(t, "websocket round trip exceeded %v", netBudget)
+			}
+			v.failf("websocket write of a well-formed envelope failed: %v", werr)
+		} else {
+			select {
+			case err := <-rdone:
+				if err != nil {
+					v.failf("websocket read of a well-formed envelope failed: %v", err)
+				}
+			case <-time.After(10 * time.Second):
+				rmu.Lock()
+				n := len(got)
+				rmu.Unlock()
+				v.failf("websocket: %d envelopes were written without error but only %d could be read", len(want), n)
+				cancel()
+				<-rdone
+			}
 		}
-		if err := <-errc; err != nil && v.Fail == "" {
-			v.failf("websocket write failed: %v", err)
-		}
+		rmu.Lock()
+		defer rmu.Unlock()
 	case "http":
 		var mu sync.Mutex
 		connected := make(chan goat.RpcReadWriter, 4)
